@@ -13,10 +13,10 @@ import (
 	"os"
 	"reflect"
 	"runtime"
-	"sort"
 	"strings"
 	"sync"
 	"time"
+	"unsafe"
 )
 
 // Outcome of one execution.
@@ -138,6 +138,20 @@ type Case struct {
 	ptr  uintptr
 	rv   reflect.Value
 	null bool
+	st   *chanState
+}
+
+type waiter struct {
+	t  *thread
+	ci int
+}
+
+// chanState is the scheduler's view of one channel: closed flag and parked threads.
+type chanState struct {
+	closed bool
+	keep   any
+	recvW  []waiter
+	sendW  []waiter
 }
 
 type op struct {
@@ -200,8 +214,14 @@ type Sched struct {
 	doneCh   chan struct{}
 	exitAck  chan struct{}
 
-	closed map[uintptr]any
+	chans  map[uintptr]*chanState
 	trace  []string
+
+	trbuf    []trans
+	rangebuf []trange
+	altbuf   []trans
+	costbuf  []int8
+	scopeC   map[*byte]bool
 	tpos   int
 
 	objIDs  map[any]int
@@ -241,7 +261,8 @@ func Run(cfg Config, main func()) *Result {
 		cfg:     cfg,
 		doneCh:  make(chan struct{}, 1),
 		exitAck: make(chan struct{}),
-		closed:  map[uintptr]any{},
+		chans:   map[uintptr]*chanState{},
+		scopeC:  map[*byte]bool{},
 		objIDs:  map[any]int{},
 		hash:    1469598103934665603,
 	}
@@ -473,10 +494,12 @@ func (s *Sched) apply(self *thread, tr trans) {
 	if t.op.kind == opChan {
 		t.op.chosen = tr.ci
 		s.mix(uint64(tr.ci) + 17)
+		s.unregister(t)
 	}
 	var part *thread
 	if tr.kind == tRendezvous {
 		part = tr.p
+		s.unregister(part)
 		part.op.chosen = tr.pi
 		part.partnerNow = true
 		s.mix(uint64(part.id)<<20 | uint64(tr.pi))
@@ -548,7 +571,7 @@ func (s *Sched) mixs(v string) {
 }
 
 // enabledOf appends the transitions of thread t (as continuing thread).
-func (s *Sched) enabledOf(t *thread, out []trans, others []*thread) []trans {
+func (s *Sched) enabledOf(t *thread, out []trans) []trans {
 	o := &t.op
 	switch o.kind {
 	case opResume:
@@ -594,41 +617,29 @@ func (s *Sched) enabledOf(t *thread, out []trans, others []*thread) []trans {
 			if c.null {
 				continue
 			}
-			_, isClosed := s.closed[c.ptr]
+			st := c.st
 			ln, cp := c.rv.Len(), c.rv.Cap()
 			if c.Dir == SendDir {
-				if isClosed || ln < cp {
+				if st.closed || ln < cp {
 					out = append(out, trans{kind: tRun, t: t, ci: i})
 					continue
 				}
 				if cp == 0 {
-					for _, p := range others {
-						if p == t || p.op.kind != opChan {
-							continue
-						}
-						for j := range p.op.cases {
-							pc := &p.op.cases[j]
-							if pc.Dir == RecvDir && !pc.null && pc.ptr == c.ptr {
-								out = append(out, trans{kind: tRendezvous, t: t, ci: i, p: p, pi: j})
-							}
+					for _, w := range st.recvW {
+						if w.t != t {
+							out = append(out, trans{kind: tRendezvous, t: t, ci: i, p: w.t, pi: w.ci})
 						}
 					}
 				}
 			} else {
-				if ln > 0 || isClosed {
+				if ln > 0 || st.closed {
 					out = append(out, trans{kind: tRun, t: t, ci: i})
 					continue
 				}
 				if cp == 0 {
-					for _, p := range others {
-						if p == t || p.op.kind != opChan {
-							continue
-						}
-						for j := range p.op.cases {
-							pc := &p.op.cases[j]
-							if pc.Dir == SendDir && !pc.null && pc.ptr == c.ptr {
-								out = append(out, trans{kind: tRendezvous, t: t, ci: i, p: p, pi: j})
-							}
+					for _, w := range st.sendW {
+						if w.t != t {
+							out = append(out, trans{kind: tRun + tRendezvous, t: t, ci: i, p: w.t, pi: w.ci})
 						}
 					}
 				}
@@ -643,89 +654,112 @@ func (s *Sched) enabledOf(t *thread, out []trans, others []*thread) []trans {
 
 var scratchOthers []*thread
 
+type trange struct {
+	t      *thread
+	lo, hi int
+}
+
 // enumerate returns the enabled transitions in canonical order: those of the
 // running thread first, then the other threads by (ready, id). A rendezvous is
 // listed once, under the thread that continues (the running thread if it takes
 // part, else the sender).
 func (s *Sched) enumerate() ([]trans, bool) {
-	live := scratchOthers[:0]
-	for _, t := range s.threads {
-		if !t.done && !t.exited {
-			live = append(live, t)
-		}
-	}
-	scratchOthers = live
-	var out []trans
+	out := s.trbuf[:0]
 	cur := s.cur
 	if cur != nil && !cur.done && cur.op.kind != opQuiesce {
-		out = s.enabledOf(cur, out, live)
+		out = s.enabledOf(cur, out)
 	}
-	ncur := len(out)
-	// others
-	type te struct {
-		t  *thread
-		tr []trans
-	}
-	var rest []te
-	for _, t := range live {
-		if t == cur || t.op.kind == opQuiesce {
+	ranges := s.rangebuf[:0]
+	anyQ := false
+	for _, t := range s.threads {
+		if t.done || t.exited || t == cur {
 			continue
 		}
-		var tr []trans
-		tr = s.enabledOf(t, tr, live)
-		// drop rendezvous transitions where t is the receiver and the sender is not the running thread:
-		// they are listed under the sender. Drop those with the running thread as partner: listed under it.
-		k := 0
-		for _, x := range tr {
-			if x.kind == tRendezvous {
-				if x.p == cur {
-					continue
-				}
-				if t.op.cases[x.ci].Dir == RecvDir {
+		if t.op.kind == opQuiesce {
+			anyQ = true
+			continue
+		}
+		lo := len(out)
+		out = s.enabledOf(t, out)
+		// drop rendezvous transitions where t is the receiver (listed under the sender) or
+		// whose partner is the running thread (listed under it)
+		k := lo
+		for i := lo; i < len(out); i++ {
+			x := out[i]
+			if x.kind == tRendezvous || x.kind == tRun+tRendezvous {
+				if x.p == cur || t.op.cases[x.ci].Dir == RecvDir {
 					continue
 				}
 			}
-			tr[k] = x
+			out[k] = x
 			k++
 		}
-		tr = tr[:k]
-		if len(tr) > 0 {
+		out = out[:k]
+		if k > lo {
 			if !t.wasEnabled {
 				t.wasEnabled = true
 				t.ready = s.step
 			}
-			rest = append(rest, te{t, tr})
+			ranges = append(ranges, trange{t, lo, k})
 		} else {
-			// a receiver whose only transitions are listed elsewhere still counts as enabled for ready stamps
-			if k == 0 && len(tr) == 0 {
-				t.wasEnabled = false
+			t.wasEnabled = false
+		}
+	}
+	if len(ranges) > 1 {
+		// insertion sort by (ready, id); then rebuild the tail of out in that order
+		for i := 1; i < len(ranges); i++ {
+			r := ranges[i]
+			j := i - 1
+			for j >= 0 && (ranges[j].t.ready > r.t.ready || (ranges[j].t.ready == r.t.ready && ranges[j].t.id > r.t.id)) {
+				ranges[j+1] = ranges[j]
+				j--
+			}
+			ranges[j+1] = r
+		}
+		sorted := true
+		for i := 1; i < len(ranges); i++ {
+			if ranges[i].lo < ranges[i-1].lo {
+				sorted = false
+				break
 			}
 		}
-	}
-	sort.SliceStable(rest, func(i, j int) bool {
-		if rest[i].t.ready != rest[j].t.ready {
-			return rest[i].t.ready < rest[j].t.ready
+		if !sorted {
+			base := ranges[0].lo
+			for _, r := range ranges {
+				if r.lo < base {
+					base = r.lo
+				}
+			}
+			tmp := s.altbuf[:0]
+			for _, r := range ranges {
+				tmp = append(tmp, out[r.lo:r.hi]...)
+			}
+			copy(out[base:], tmp)
+			s.altbuf = tmp[:0]
 		}
-		return rest[i].t.id < rest[j].t.id
-	})
-	for _, r := range rest {
-		out = append(out, r.tr...)
 	}
-	if len(out) == 0 {
+	s.rangebuf = ranges[:0]
+	if len(out) == 0 && anyQ {
 		// quiescers: only those of the highest priority
 		best := -1 << 30
-		for _, t := range live {
-			if t.op.kind == opQuiesce && t.op.prio > best {
+		for _, t := range s.threads {
+			if !t.done && !t.exited && t.op.kind == opQuiesce && t.op.prio > best {
 				best = t.op.prio
 			}
 		}
-		for _, t := range live {
-			if t.op.kind == opQuiesce && t.op.prio == best {
+		for _, t := range s.threads {
+			if !t.done && !t.exited && t.op.kind == opQuiesce && t.op.prio == best {
 				out = append(out, trans{kind: tRun, t: t})
 			}
 		}
 	}
-	_ = ncur
+	// normalise the receiver-side rendezvous marker
+	for i := range out {
+		if out[i].kind == tRun+tRendezvous {
+			out[i].kind = tRendezvous
+		}
+	}
+	s.trbuf = out[:0]
 	timerAlt := false
 	if len(out) > 0 && s.cfg.Timer >= 0 {
 		if tm := s.nextTimer(); tm != nil {
@@ -733,6 +767,19 @@ func (s *Sched) enumerate() ([]trans, bool) {
 		}
 	}
 	return out, timerAlt
+}
+
+func (s *Sched) inScope(site string) bool {
+	if site == "" {
+		return s.cfg.Scope(site)
+	}
+	k := unsafe.StringData(site)
+	v, ok := s.scopeC[k]
+	if !ok {
+		v = s.cfg.Scope(site)
+		s.scopeC[k] = v
+	}
+	return v
 }
 
 // chooseTransition applies replay / default / recording.
@@ -744,10 +791,15 @@ func (s *Sched) chooseTransition(trs []trans, timerAlt bool) (trans, bool) {
 	// affordable alternatives
 	cur := s.cur
 	curEnabled := cur != nil && !cur.done && def.t == cur
-	alts := make([]trans, 0, len(trs)+1)
-	alts = append(alts, def)
 	remP := s.cfg.Budget[BudP] - s.used[BudP]
-	costs := make([]int8, 1, len(trs)+1)
+	if !timerAlt && remP <= 0 && s.cfg.Preempt > 0 && s.cfg.Switch > 0 && s.cfg.SelCase > 0 {
+		return def, true
+	}
+	alts := s.altbuf[:0]
+	alts = append(alts, def)
+	costs := s.costbuf[:0]
+	costs = append(costs, 0)
+	defer func() { s.altbuf, s.costbuf = alts[:0], costs[:0] }()
 	for _, x := range trs[1:] {
 		var c int
 		if x.t == def.t {
@@ -761,7 +813,7 @@ func (s *Sched) chooseTransition(trs []trans, timerAlt bool) (trans, bool) {
 			continue
 		}
 		if c > 0 && s.cfg.Scope != nil {
-			if !(s.cfg.Scope(def.t.op.site) || s.cfg.Scope(x.t.op.site) || (cur != nil && s.cfg.Scope(cur.op.site))) {
+			if !(s.inScope(def.t.op.site) || s.inScope(x.t.op.site) || (cur != nil && s.inScope(cur.op.site))) {
 				continue
 			}
 		}
@@ -773,7 +825,7 @@ func (s *Sched) chooseTransition(trs []trans, timerAlt bool) (trans, bool) {
 		c := s.cfg.Timer
 		remT := s.cfg.Budget[BudT] - s.used[BudT]
 		tm := s.nextTimer()
-		if c <= remT && (c == 0 || s.cfg.Scope == nil || s.cfg.Scope(tm.site)) {
+		if c <= remT && (c == 0 || s.cfg.Scope == nil || s.inScope(tm.site)) {
 			timerIdx = len(alts)
 			alts = append(alts, trans{kind: tTimer})
 			costs = append(costs, int8(c))
